@@ -52,6 +52,11 @@ RULE = (
     "{2,3,6}; thr-x-*: cross-lock case, the holder keeps the OTHER lock (send lock while the caller receives, receive lock while "
     "the caller sends; TCP and UDP) until L in {10,30,60,200}d and the caller's operation is completable regardless of L; sync-tls: TLS 1.2/1.3, library as client or server, handshake flights dripped by a (sizes, delays) script with "
     "handshake_timeout in {60, 8d, 40d}, then 1-3 records fed byte-wise / in bursts / after a silence / last byte never; "
+    "sync-overshoot-*: 1-3 recv_packet (StreamEndpoint, TCPNetworkClient, UDPNetworkClient) / back-pressured send_packet calls with "
+    "retry_interval in d/{1,2,8,32} and T = {3,10,25,60}(+0|1/4|1/2) retry intervals, every select() that expires idle returns late "
+    "(select_overshoot: constant {1/16,1/4,1,3} retry intervals | wait rounded up to a timer granule {1.5,2,4,8} retry intervals | a "
+    "random 1/{2,3,5} of the wake-ups), completion at s + T x {1/2, 3/4, 1, 1+1/64, 2, never}; allowed: T + lateness of the LAST "
+    "select() of the call only (every earlier lateness is measurable with the clock), and no select() may start after s + T; "
     "non-trivial = a fault kind fired and >=1 operation completed with a value"
 )
 COMPONENTS_REAL = [
@@ -67,13 +72,15 @@ COMPONENTS_REAL = [
 ]
 COMPONENTS_STUB = [
     "socket (SimSocket; for TLS a real AF_UNIX socketpair pumped by the simulator)",
-    "selector (SimSelector subclass with early spurious wake-ups)",
+    "selector (SimSelector subclass with early spurious wake-ups; sync-overshoot-*: idle waits that return late)",
     "time.perf_counter / loop.time (world clock)",
     "peer (scripted, credit-based reader; reference ssl.SSLObject peer for TLS)",
     "OS thread scheduling (baton scheduler: one runnable thread at a time, switches at lock/select/start/join/sleep)",
 ]
 ASSUMPTIONS = [
     "processing takes no virtual time: the clock only moves inside select()/sleep",
+    "sync-overshoot-*: only a select() whose whole timeout expired idle returns late; what became ready meanwhile is reported by "
+    "that same select(); the lateness of the last select() of a call is granted as slack, nothing else; no EAGAIN/EINTR injection there",
     "completion moment of a send assumes a greedy sender (writes whenever the socket is writable); the library is one",
     "asyncio engine: the arrival model assumes a timed-out receive loses no bytes (C10; D5 fixed in /repo e60fd44), so ties "
     "and zero budgets are generated on the buffer-filling path too",
@@ -100,6 +107,12 @@ class Ctx:
         self.early_steps: tuple[float, ...] = (1 / 256,)
         self.log: list[tuple] = []
         self.completed = 0
+        # late wake-ups (sync-overshoot harnesses): over(timeout) -> by how much a select() that expired idle returns late;
+        # last_over = lateness of the judged caller's most recent select() (the only slack the budget clause grants)
+        self.over: Callable[[float], float] | None = None
+        self.last_over = 0.0
+        self.n_over = 0
+        self.late: list[tuple[float, float]] = []  # (nominal expiry, actual return) of the late select() calls of this call
         world.c11 = self  # type: ignore[attr-defined]
 
     def fail(self, clause: str, op: str, msg: str) -> None:
@@ -111,6 +124,7 @@ class Ctx:
         sched = getattr(self.world, "sched", None)
         if sched is not None and sched.active and sched.current is not None and sched.current.idx != 0:
             return  # threads engine: a select() of the lock-holder thread, not of the judged caller (thread 0)
+        self.last_over = 0.0
         if timeout is None or timeout > 0:
             self.pos_waits += 1
         if self.deadline is not None and self.world.now > self.deadline + EPS:
@@ -119,13 +133,27 @@ class Ctx:
     def begin(self, what: str, budget: float | None) -> tuple[float, int]:
         self.what = what
         self.deadline = None if budget is None else self.world.now + budget
+        self.last_over = 0.0
+        self.late = []
         return self.world.now, self.pos_waits
 
     def end(self) -> None:
         self.deadline = None
 
-    def judge(self, op: str, budget: float | None, s: float, e: float, pos_waits: int, outcome: str, tc: float | None, sync: bool = True, lock_waits: int = 0) -> None:
-        """budget: what is left of the timeout for this call (None = unbounded); tc: when the world made it completable"""
+    def seen(self, tc: float | None) -> float | None:
+        """the moment the caller could first act on a completion at tc: if tc falls after the nominal expiry of a select()
+        that returned late, the caller was stuck inside that select() until it returned (a wake-up before the nominal
+        expiry is never late)"""
+        if tc is not None:
+            for a, b in self.late:
+                if a < tc <= b:
+                    return b
+        return tc
+
+    def judge(self, op: str, budget: float | None, s: float, e: float, pos_waits: int, outcome: str, tc: float | None, sync: bool = True, lock_waits: int = 0, slack: float = 0.0) -> None:
+        """budget: what is left of the timeout for this call (None = unbounded); tc: when the world made it completable;
+        slack: lateness of the LAST select() of the call (a selector that returned late is outside the library's control; the
+        lateness of every earlier select() was measurable by the library and is part of the budget: never summed up)"""
         w = self.world
         elapsed = e - s
         self.log.append((op, budget, s, e, outcome, tc))
@@ -137,8 +165,9 @@ class Ctx:
             if outcome == "timeout":
                 self.fail("timeout-without-deadline", op, f"{op} without a timeout raised TimeoutError at t={e}")
             return
-        if elapsed > budget + EPS:
-            self.fail("budget", op, f"{op} with {budget} s left of its timeout took {elapsed} virtual seconds (t={s}..{e}), outcome={outcome}")
+        if elapsed > budget + slack + EPS:
+            late = f"; select() returned late {self.n_over} times, the last select() of the call by {slack} s (the only lateness the call cannot account for)" if self.n_over else ""
+            self.fail("budget", op, f"{op} with {budget} s left of its timeout took {elapsed} virtual seconds (t={s}..{e}), outcome={outcome}{late}")
         if budget <= 0:
             if elapsed > 0 or (sync and pos_waits) or lock_waits:
                 self.fail("zero-timeout-blocked", op, f"{op} with a zero budget waited: {pos_waits} select() calls with a positive wait, {lock_waits} blocking lock waits, {elapsed} s passed")
@@ -171,7 +200,25 @@ class C11Selector(SimSelector):
                     w.log("spurious", "sel", dt)
                     return [(keys[0], keys[0].events & (EVENT_READ | EVENT_WRITE))]
             return ready
-        return super().select(timeout)
+        if ctx.over is None or timeout is None or timeout <= 0:
+            return super().select(timeout)
+        ready = super().select(timeout)
+        if ready:
+            return ready
+        # the whole timeout expired idle: the selector returns late (timer granularity, loaded machine, slow wake-up);
+        # world events keep running meanwhile and what became ready in the meantime is reported
+        ov = ctx.over(timeout)
+        if ov > 0:
+            target = w.now + ov
+            while w.now < target:
+                w.advance(None, until=target)
+            ctx.last_over = ov
+            ctx.late.append((w.now - ov, w.now))
+            ctx.n_over += 1
+            w.fault("select_overshoot")
+            w.log("overshoot", "sel", timeout, ov)
+            ready = self._ready_now()
+        return ready
 
 
 def _choose_T(world: World, s: float, tc: float | None, d: float, *, none_ok: bool = True, zero_ok: bool = True, tie_ok: bool = True, offgrid: float = 0.0) -> float | None:
@@ -279,17 +326,17 @@ def _sync_call(ctx: Ctx, op: str, budget: float | None, tc: float | None, fn: Ca
         ctx.end()
         if not isinstance(e.__cause__, TimeoutError):
             ctx.fail("unexpected-exception", op, f"{op}: iterator stopped because of {e.__cause__!r}")
-        ctx.judge(op, budget, s, w.now, ctx.pos_waits - p0, "timeout", tc, lock_waits=lw())
+        ctx.judge(op, budget, s, w.now, ctx.pos_waits - p0, "timeout", ctx.seen(tc), lock_waits=lw(), slack=ctx.last_over)
         return "timeout"
     except TimeoutError:
         ctx.end()
-        ctx.judge(op, budget, s, w.now, ctx.pos_waits - p0, "timeout", tc, lock_waits=lw())
+        ctx.judge(op, budget, s, w.now, ctx.pos_waits - p0, "timeout", ctx.seen(tc), lock_waits=lw(), slack=ctx.last_over)
         return "timeout"
     except Exception as e:
         ctx.end()
         ctx.fail("unexpected-exception", op, f"{op} raised {type(e).__name__}: {e}")
     ctx.end()
-    ctx.judge(op, budget, s, w.now, ctx.pos_waits - p0, "value", tc, lock_waits=lw())
+    ctx.judge(op, budget, s, w.now, ctx.pos_waits - p0, "value", tc, lock_waits=lw(), slack=ctx.last_over)
     return "value"
 
 
@@ -502,6 +549,105 @@ def _h_sync_udp(world: World) -> None:
                     if out != "value":
                         break
                     got += 1
+        finally:
+            obj.close()
+
+
+# ============================================================================================== harness: late select() returns
+def _h_sync_overshoot(world: World, target: str) -> None:
+    """Many idle retry-interval wake-ups, each select() returning LATE (fault ``select_overshoot``).
+
+    A select(w) that expires idle returns at w + ov instead of w: ov constant (1/16 .. 3 retry intervals), or the wait is
+    rounded up to a timer granule g > retry_interval (poll(2): 1 ms granule with a sub-millisecond retry_interval), or a
+    random subset of the wake-ups is late.  retry_interval in d/{1,2,8,32}, T = 3..60 retry intervals (+ a fraction), so a
+    call needs up to 60 wake-ups.  The library reads the (virtual) clock around every select(), so every lateness but
+    the last one is visible to it: total waiting <= T + lateness of the LAST select() of the call, never T + sum.
+    The operation is made completable at s + T x {2, 1/2, 1 (tie), 3/4, never, 1 + a little}; no EAGAIN/EINTR here (a call
+    that finds nothing to read after a late wake-up past its deadline may time out: nothing to judge there)."""
+    calm = world.choose("swarm", 3) == 0
+    d = world.pick("delta", (4, 1, 2, 8)) / 64.0
+    retry = d / world.pick("retry.div", (2, 8, 32, 1))
+    ctx = Ctx(world, f"sync-overshoot-{target}")
+    mode = "none" if calm else world.pick("over.mode", ["const", "granule", "random", "none"])
+    over_desc: Any = None
+    if mode == "const":
+        k = world.pick("over.k", (1 / 4, 1 / 16, 1, 3))
+        over_desc = k
+        ctx.over = lambda timeout: k * retry
+    elif mode == "granule":
+        g = retry * world.pick("over.g", (2, 1.5, 4, 8))
+        over_desc = g
+        ctx.over = lambda timeout: math.ceil(timeout / g) * g - timeout
+    elif mode == "random":
+        den = world.pick("over.den", (2, 3, 5))
+        over_desc = den
+        ctx.over = lambda timeout: world.pick("over.k", (1 / 4, 1, 3, 1 / 16)) * retry if world.chance("over", 1, den) else 0.0
+    if not calm:
+        ctx.early_den = draw_rate(world, "sw.early", (0, 0, 6))
+        ctx.early_steps = (retry / 4, retry / 2, retry, 3 * retry)
+    net = SimNet(world)
+    ser = StringLineSerializer()
+    cap = world.pick("cap", (16, 4, 64)) if target == "send" else 0
+    peer: Any = None
+    remote = ("10.0.0.9", 9000)
+    if target == "udp":
+        lib = SimSocket(net, _socket.AF_INET, _socket.SOCK_DGRAM, 0, "lib")
+        net.bind(lib, ("10.0.0.1", 0))
+        lib.connect(remote)
+    elif target == "send":
+        lib, ps = net.socketpair(capacity_ab=cap)
+        peer = CreditPeer(world, ps)
+        if not calm:
+            world.fault("capacity_small")
+            world.fault("peer_stops_reading")
+    else:
+        lib, ps = net.socketpair()
+        peer = Peer(world, ps)
+    world.notes.update(target="overshoot-" + target, delta=d, retry_interval=retry, over_mode=mode, over_param=over_desc, early_den=ctx.early_den, capacity=cap)
+    with sync_engine(world, selector_cls=C11Selector) as make_selector:
+        if target == "endpoint":
+            obj: Any = StreamEndpoint(SocketStreamTransport(lib, retry, selector_factory=make_selector), StreamProtocol(ser), 1024)
+        elif target == "udp":
+            obj = UDPNetworkClient(lib, DatagramProtocol(ser), retry_interval=retry)
+        else:
+            obj = TCPNetworkClient(lib, StreamProtocol(ser), retry_interval=retry)
+        try:
+            armed: float | None = None  # completion moment of an operation the world has armed and nobody has consumed yet
+            plan: list[tuple] = []
+            for i in range(1 + world.choose("ops", 3)):
+                vsleep(world, world.pick("pause", (0, 1, 5)) * d)
+                s = world.now
+                T = (world.pick("T.n", (10, 3, 25, 60)) + world.pick("T.frac", (0, 1 / 2, 1 / 4))) * retry
+                packet = "p%d" % i
+                if target == "send":
+                    packet = "m" * (cap + world.pick("size", (1, cap, 3 * cap)))  # + newline: never fits, has to wait for credit
+                if armed is None:
+                    rel = world.pick("arr.rel", (2, 1 / 2, 1, 3 / 4, None, 1 + 1 / 64)) if not calm else world.pick("arr.rel", (1 / 2, 1 / 4))
+                    if rel is not None:
+                        armed = s + T * rel
+                        if rel > 1:
+                            world.fault("delay")
+                        if target == "send":
+                            peer.grant_at(armed, len(packet) + 1)
+                        elif target == "udp":
+                            world.at(armed, lambda packet=packet: net.inject_dgram(lib, packet.encode(), remote))
+                        else:
+                            peer.write_at(armed, packet.encode() + b"\n")
+                    else:
+                        world.fault("stall_peer")
+                tc = armed
+                plan.append((s, T, tc))
+                world.notes.update(ops=plan)
+                if target == "send":
+                    out = _sync_call(ctx, "send_packet", T, tc, lambda: obj.send_packet(packet, timeout=T))
+                    if out != "value":
+                        break  # a timed-out send leaves half a packet behind: nothing more to model
+                else:
+                    out = _sync_call(ctx, "recv_packet", T, tc, lambda: obj.recv_packet(timeout=T))
+                if out == "value":
+                    armed = None
+            if ctx.n_over >= 8:
+                world.probe("overshoot>=8-in-a-run")
         finally:
             obj.close()
 
@@ -1016,4 +1162,8 @@ HARNESSES = [
     Harness("thr-x-tcp-sendlock-recv", lambda w: _h_thr_cross(w, "tcp-sendlock-recv"), weight=2),
     Harness("thr-x-tcp-recvlock-send", lambda w: _h_thr_cross(w, "tcp-recvlock-send"), weight=1),
     Harness("thr-x-udp-recvlock-send", lambda w: _h_thr_cross(w, "udp-recvlock-send"), weight=1),
+    Harness("sync-overshoot-endpoint", lambda w: _h_sync_overshoot(w, "endpoint"), weight=1),
+    Harness("sync-overshoot-client", lambda w: _h_sync_overshoot(w, "client"), weight=1),
+    Harness("sync-overshoot-udp", lambda w: _h_sync_overshoot(w, "udp"), weight=1),
+    Harness("sync-overshoot-send", lambda w: _h_sync_overshoot(w, "send"), weight=1),
 ]
